@@ -161,7 +161,7 @@ def evalbin(op, t, l, r):
 def ceval(e):
     """eval.c:eval on the typed tree"""
     k = e[0]
-    if k in ('c', 'p', 'cond'):
+    if k in ('c', 'p', 'cond', 'idx', 'calle'):
         return e
     if k == 'neg':
         l = ceval(e[2])
@@ -178,7 +178,7 @@ def ceval(e):
     op, t = e[0], e[1]
     l = ceval(e[2])
     r = ceval(e[3])
-    isbin = lambda x: x[0] not in ('c', 'p', 'cond', 'neg', 'cast')
+    isbin = lambda x: x[0] not in ('c', 'p', 'cond', 'neg', 'cast', 'idx', 'calle')
     if op == 'add':
         if isbin(r):
             l, r = r, l
@@ -223,6 +223,7 @@ class Gen:
         self.allow_cond = allow_cond
         self.allow_logic = allow_logic
         self.vars = None          # F2: indices of the variables an expression may read
+        self.impure = []          # F2: thunks giving an array read ('I', ...) or a call ('F', ...) as a leaf
 
     def const(self):
         r = self.rng
@@ -243,6 +244,8 @@ class Gen:
 
     def expr(self, d):
         r = self.rng
+        if self.impure and r.random() < (0.30 if d <= 0 else 0.12):
+            return r.choice(self.impure)()
         if d <= 0 or r.random() < 0.15:
             if self.vars is not None:
                 if self.vars and r.random() < 0.7:
@@ -257,7 +260,15 @@ class Gen:
         if x < 0.30:
             return ('U', r.choice(['-', '+', '~', '!']), self.expr(d - 1))
         if x < 0.40 and self.allow_cond:
-            return ('Q', self.expr(d - 1), self.expr(d - 1), self.expr(d - 1))
+            # condexpr folds its condition with eval(): an array read there would get a folded address, which the
+            # model of the statements does not describe - no array read inside the condition of ?:
+            saved = self.impure
+            self.impure = [f for f in saved if not getattr(f, 'isidx', False)]
+            try:
+                c = self.expr(d - 1)
+            finally:
+                self.impure = saved
+            return ('Q', c, self.expr(d - 1), self.expr(d - 1))
         if x < 0.50 and self.allow_logic:
             return ('B', r.choice(['lor', 'land']), self.expr(d - 1), self.expr(d - 1))
         if x < 0.62:
@@ -275,6 +286,8 @@ def ctext(e):
     if k == 'U': return '(%s %s)' % (e[1], ctext(e[2]))
     if k == 'B': return '(%s %s %s)' % (ctext(e[2]), CSYM[e[1]], ctext(e[3]))
     if k == 'Q': return '(%s ? %s : %s)' % (ctext(e[1]), ctext(e[2]), ctext(e[3]))
+    if k == 'I': return 'p%d[%s]' % (e[1], ctext(e[2]))
+    if k == 'F': return '%s(%s)' % (e[1], ', '.join(ctext(a) for a in e[4]))
     raise ValueError(k)
 
 
@@ -315,9 +328,15 @@ def parse(e, ptys):
             # the result type; a cast is not an lvalue): then the EXPRCOND node is built, with the folded
             # constant as its condition (expr.c condexpr: "the result of a conditional expression is not an lvalue")
             sel = conv(l if c[2] != 0 else r, t)
-            if sel[0] != 'p':
+            if sel[0] not in ('p', 'idx'):      # `a[i]` is an lvalue too
                 return sel
         return ('cond', t, c, l, r)
+    if k == 'I':
+        # ('I', k, idxsrc, t, n): `a[i]` = *(a + (unsigned long)i * sizeof *a); the model rebuilds the address
+        return ('idx', e[3], e[1], e[4], parse(e[2], ptys))
+    if k == 'F':
+        # ('F', name, ret, ptys, argsrcs): EXPRCALL, arguments converted to the parameter types (exprassign)
+        return ('calle', e[2], e[1], [conv(parse(a, ptys), pt) for a, pt in zip(e[4], e[3])])
     raise ValueError(k)
 
 
@@ -328,6 +347,8 @@ def sx(e):
     if k == 'cast': return '(cast %s %s)' % (e[1], sx(e[2]))
     if k == 'neg': return '(neg %s %s)' % (e[1], sx(e[2]))
     if k == 'cond': return '(cond %s %s %s %s)' % (e[1], sx(e[2]), sx(e[3]), sx(e[4]))
+    if k == 'idx': return '(idx %s %d %d %s)' % (e[1], e[2], e[3], sx(e[4]))
+    if k == 'calle': return '(calle %s %s%s)' % (e[1], e[2], ''.join(' ' + sx(a) for a in e[3]))
     return '(%s %s %s %s)' % (e[0], e[1], sx(e[2]), sx(e[3]))
 
 
@@ -388,7 +409,7 @@ def gen(seed, charsigned, n, nargs=4, prefix='f'):
 #   `return e;` (ret conv(e,RET))               exprassign to the return type
 #   `for (init; c; step) body`  (for INIT COND STEP BODY), a missing clause is (skip) / (none)
 STMT_KINDS = ['decl', 'decl-init', 'set', 'opset', 'inc', 'dec', 'expr', 'ret', 'block', 'if', 'ifelse', 'while',
-              'do', 'for', 'break', 'continue', 'skip', 'switch', 'case', 'default', 'call', 'adecl', 'aload', 'astore']
+              'do', 'for', 'break', 'continue', 'skip', 'switch', 'case', 'default', 'call', 'adecl', 'aload', 'astore', 'idx-expr', 'call-expr']
 OPSET = ['mul', 'div', 'mod', 'add', 'sub', 'shl', 'shr', 'and', 'or', 'xor']
 # which jump statements may be generated: 0 none, 1 in a loop, 2 in a switch outside any loop (the `continue` of a
 # switch inside a loop belongs to the loop), 3 in a switch inside a loop
@@ -424,6 +445,7 @@ class Gen2:
         self.acc = None                       # an unsigned accumulator updated in loop bodies and folded into the result
         self.callees = []                     # stage D: (name, ret, ptys, firstarg) of the functions that may be called
         self.arrays = True                    # stage E switch
+        self.impure_ok = True                 # array reads and calls inside the expressions of statements
         self.arrs = {}                        # stage E: array variable -> number of elements; (k, j) in self.init:
                                               # element j of array k certainly holds a value
         self.g = Gen(rng, self.vtys)
@@ -431,7 +453,48 @@ class Gen2:
     def count(self, k):
         self.hist[k] = self.hist.get(k, 0) + 1
 
-    def expr(self, scope, depth=None, risky=0.04):
+    def leaves(self, scope):
+        """thunks for the impure leaves available here: reads of the arrays all of whose elements hold a value,
+        calls of the functions that may be called"""
+        r = self.rng
+        out = []
+        for k in scope:
+            if k in self.arrs and all((k, j) in self.init for j in range(self.arrs[k])):
+                def rd(k=k):
+                    isrc, _ = self.index(scope, self.arrs[k], True, k)
+                    self.count('idx-expr')
+                    return ('I', k, isrc, self.vtys[k], self.arrs[k])
+                rd.isidx = True
+                out.append(rd)
+        for name, ret, ptys, first in self.callees:
+            def cl(name=name, ret=ret, ptys=ptys, first=first):
+                args = []
+                for j in range(len(ptys)):
+                    if j == 0 and first is not None:
+                        args.append(first)
+                    else:
+                        args.append(self.expr(scope, 1)[0])
+                self.count('call-expr')
+                return ('F', name, ret, ptys, args)
+            out.append(cl)
+        return out
+
+    def expr(self, scope, depth=None, risky=0.04, impure=False):
+        r = self.rng
+        lv = self.leaves(scope) if (impure and self.impure_ok) else []
+        src = self.expr0(scope, depth, risky, lv)
+        return src, parse(src, self.vtys)
+
+    def expr0(self, scope, depth, risky, lv):
+        r = self.rng
+        saved = self.g.impure
+        self.g.impure = lv
+        try:
+            return self.expr1(scope, depth, risky)
+        finally:
+            self.g.impure = saved
+
+    def expr1(self, scope, depth, risky):
         r = self.rng
         ok = [k for k in scope if k in self.init and k not in self.arrs]
         if r.random() < risky:
@@ -440,10 +503,12 @@ class Gen2:
         if not ok:
             # nothing to read: a plain constant (constant-only operator trees are mostly undefined or folded natively)
             v = r.choice([0, 1, 2, 3, 7, 100, 255, 65535, 1000000])
-            src = ('K', v, str(v), True, '')
-            return src, parse(src, self.vtys)
+            if self.g.impure and r.random() < 0.5:
+                return r.choice(self.g.impure)()
+            return ('K', v, str(v), True, '')
+        vars_saved = ok
         src = self.g.expr(r.randrange(0, 3) if depth is None else depth)
-        return src, parse(src, self.vtys)
+        return src
 
     def newvar(self, t):
         self.vtys.append(t)
@@ -516,7 +581,7 @@ class Gen2:
             fill = r.random()
             for j in range(n):
                 if fill < 0.75 or r.random() < 0.5:
-                    src, e = self.expr(scope, 1)
+                    src, e = self.expr(scope, 1, impure=True)
                     self.init.add((k, j))
                     self.count('astore')
                     out.append(('p%d[%d] = %s;' % (k, j, ctext(src)),
@@ -529,7 +594,7 @@ class Gen2:
         if x < 0.68 and av:
             return self.aload(scope, k)
         isrc, j = self.index(scope, n, False, k)
-        src, e = self.expr(scope)
+        src, e = self.expr(scope, impure=True)
         if j is not None:
             self.init.add((k, j))
         self.count('astore')
@@ -574,7 +639,7 @@ class Gen2:
         if x < 0.22 or not av:
             t = r.choice(TYS)
             if r.random() < 0.7:
-                src, e = self.expr(scope)
+                src, e = self.expr(scope, impure=True)
                 k = self.newvar(t)
                 scope.append(k)
                 self.init.add(k)
@@ -587,7 +652,7 @@ class Gen2:
         if x < 0.55:
             k = r.choice(av)
             t = self.vtys[k]
-            src, e = self.expr(scope)
+            src, e = self.expr(scope, impure=True)
             self.init.add(k)
             self.count('set')
             return [('p%d = %s;' % (k, ctext(src)), '(set %d %s %s)' % (k, t, sx(conv(e, t))))]
@@ -596,7 +661,7 @@ class Gen2:
             k = r.choice(ini)
             t = self.vtys[k]
             op = r.choice(OPSET)
-            src, e = self.expr(scope)
+            src, e = self.expr(scope, impure=True)
             self.count('opset')
             tree = conv(mkbinary(op, ('p', t, k), e), t)
             return [('p%d %s= %s;' % (k, CSYM[op], ctext(src)), '(set %d %s %s)' % (k, t, sx(tree)))]
@@ -609,7 +674,7 @@ class Gen2:
                 txt = r.choice(['p%d++;', '++p%d;'] if inc else ['p%d--;', '--p%d;']) % k
                 return [(txt, '(%s %d %s)' % ('inc' if inc else 'dec', k, self.vtys[k]))]
         if x < 0.90:
-            src, e = self.expr(scope)
+            src, e = self.expr(scope, impure=True)
             self.count('expr')
             return [('%s;' % ctext(src), '(expr %s)' % sx(e))]
         if x < 0.94:
@@ -617,13 +682,13 @@ class Gen2:
             return [(';', '(skip)')]
         k = r.choice(av)
         t = self.vtys[k]
-        src, e = self.expr(scope, 1)
+        src, e = self.expr(scope, 1, impure=True)
         self.init.add(k)
         self.count('set')
         return [('p%d = %s;' % (k, ctext(src)), '(set %d %s %s)' % (k, t, sx(conv(e, t))))]
 
     def ret(self, scope):
-        src, e = self.expr(scope)
+        src, e = self.expr(scope, impure=True)
         self.count('ret')
         return ('return %s;' % ctext(src), '(ret %s)' % sx(conv(e, self.rty)))
 
@@ -714,8 +779,7 @@ class Gen2:
         r = self.rng
         src = ('B', 'lt', ('P', k), ('K', n, str(n), True, ''))
         if r.random() < 0.25:
-            self.g.vars = [j for j in scope if j in self.init]
-            src = ('B', 'land', src, self.g.expr(1))
+            src = ('B', 'land', src, self.expr(scope, 1, risky=0.0, impure=True)[0])
         return src, parse(src, self.vtys)
 
     def loop(self, scope, depth):
@@ -796,7 +860,7 @@ class Gen2:
     def switch(self, scope, depth, inloop):
         """switch (e) { case K: { ... } [break;] ... [default: ...] }"""
         r = self.rng
-        src, e = self.expr(scope, r.randrange(0, 2))
+        src, e = self.expr(scope, r.randrange(0, 2), impure=True)
         pt = promote(ty(e))
         e = conv(e, pt)                                   # exprpromote
         self.count('switch')
@@ -854,7 +918,7 @@ class Gen2:
         for _ in range(n):
             x = r.random()
             if depth > 0 and self.level != 'A' and x < 0.30:
-                src, e = self.expr(scope)
+                src, e = self.expr(scope, impure=True)
                 saved = set(self.init)
                 ac, at, _ = self.sub(scope, depth - 1, inloop)
                 ia = self.init
